@@ -98,6 +98,8 @@ def evo_association(s1, s2, max_diff, offset_2):
 
 
 def geometry_variant(ref, est, geometry):
+    if geometry in ("nonl", "crlf"):
+        return ref, est       # the same data, another text form of the file
     if geometry == "b":
         # a burst: one more estimate pose 0.05 s after the third one - with
         # t_max_diff 0.3 both contend for the same reference pose
@@ -156,6 +158,14 @@ def write_fixture(wd):
             text = f.read()
         with open(os.path.join(wd, dst + ".txt"), "w") as f:
             f.write(text)
+    # the first estimate in other text forms of the same file: no newline
+    # after the last row, Windows line ends
+    with open(os.path.join(wd, "est1.txt")) as f:
+        text = f.read()
+    with open(os.path.join(wd, "est1_nonl.txt"), "w", newline="") as f:
+        f.write(text.rstrip("\n"))
+    with open(os.path.join(wd, "est1_crlf.txt"), "w", newline="") as f:
+        f.write(text.replace("\n", "\r\n"))
     for g in ("m", "f", "b"):
         r_g, e_g = geometry_variant(ref, est1, g)
         rfiles.write_tum(os.path.join(wd, "ref_%s.txt" % g), r_g.stamps,
